@@ -41,7 +41,8 @@ class CsrDecWorld(World):
 
     # ------------------------------------------------------------------------------------------
     def _gen_tree(self, rng, aw, depth, kind):
-        node = {"t": "dec", "aw": aw, "al": rng.choice([0, 0, 1, 2]), "subs": [],
+        node = {"t": "dec", "aw": aw, "al": rng.choice([0, 0, 1, 2]), "omit": int(rng.chance(0.3)),
+                "subs": [],
                 "mid": rng.choice(["elab", "patterns", "resources"]) if rng.chance(0.12) else None,
                 "mid_at": rng.below(3), "own_map": int(rng.chance(0.06))}
         if rng.chance(0.08) and aw >= 2:
@@ -138,8 +139,9 @@ class CsrDecWorld(World):
             mods.append(mux)
             leaves.append({"bus": mux.bus, "map": mm, "regs": regs})
             return mux.bus
-        dec = hw.construct(csr.Decoder, addr_width=node["aw"], data_width=dw,
-                           alignment=node["al"])
+        dec = hw.construct(csr.Decoder, **hw.spelled(node.get("omit"), {"alignment": 0},
+                                                     addr_width=node["aw"], data_width=dw,
+                                                     alignment=node["al"]))
         if node.get("own_map"):
             dec.bus.memory_map = MemoryMap(addr_width=node["aw"], data_width=dw,
                                            alignment=node["al"])
